@@ -171,9 +171,34 @@ class OwnInterp(Interp):
         c = n.get("callee")
         args = n.get("args", [])
         al, stt = self._unpack(st.ts)
+        if c == "cif_value_clean" and args:
+            # releases what hangs off the value, not the value object: modelled for a local structure given by address
+            a0 = strip(args[0])
+            if isinstance(a0, dict) and a0.get("k") == "un" and a0.get("op") == "&":
+                base = path(strip(a0.get("e")))
+                if base:
+                    changed = False
+                    for q, r0 in list(al.items()):
+                        if (q.startswith(base + ".") or q.startswith(base + "->")) and stt.get(r0) == "owned":
+                            stt[r0] = "released"
+                            changed = True
+                    if changed:
+                        return [(self._with(st, al, stt), None)]
         if c in self.release and len(args) > self.release[c][0]:
             idx, deep = self.release[c]
             p = path(strip(args[idx]))
+            a0 = strip(args[idx])
+            if p is None and deep and isinstance(a0, dict) and a0.get("k") == "un" and a0.get("op") == "&":
+                # a deep release of a local structure (`cif_value_clean(&fresh)`): what hangs off its fields goes with it
+                base = path(strip(a0.get("e")))
+                if base:
+                    changed = False
+                    for q, r0 in list(al.items()):
+                        if (q.startswith(base + ".") or q.startswith(base + "->")) and stt.get(r0) == "owned":
+                            stt[r0] = "released"
+                            changed = True
+                    if changed:
+                        return [(self._with(st, al, stt), None)]
             rid = al.get(p) if p else None
             if rid is not None:
                 cur = stt.get(rid)
@@ -248,7 +273,10 @@ class OwnInterp(Interp):
                     stt[rid] = "gone"
                     return [(self._with(st, al, stt), None)]
         if c in SHALLOW_COPY and len(args) > SHALLOW_COPY[c]:
-            p = path(strip(args[SHALLOW_COPY[c]]))
+            src0 = strip(args[SHALLOW_COPY[c]])
+            if isinstance(src0, dict) and src0.get("k") == "un" and src0.get("op") == "&":
+                src0 = strip(src0.get("e"))         # memcpy(dst, &local_struct, ..): the structure itself is the source
+            p = path(src0)
             # contents of *src move to *dst: what hangs off src (under any of its names) goes with them
             if p:
                 changed = False
